@@ -262,6 +262,18 @@ def run_c05(ctx):
                 for r in (base, dict(base, id="X"), _R("Not", base), _R("All", base, LEAF("w"), id="A"), _R("Imply", LEAF("w"), base)):
                     cases.append({"recipe": r, "src": "handmade"})
     ctx.region("defaulted_cc_group_negated")
+    # a named rule edited between two versions of a model whose other nodes have generated ids (negated in the same process)
+    x_, y_, z_ = LEAF("x"), LEAF("y"), LEAF("z")
+    for B1, B2 in ((_R("All", x_, y_, id="B"), _R("Any", x_, y_, id="B")), (_R("Any", x_, y_, id="B"), _R("All", x_, y_, id="B")),
+                   (_R("AtLeast", x_, y_, z_, v=2, s=1, id="B"), _R("AtLeast", x_, y_, z_, v=1, s=1, id="B")), (_R("Xor", x_, y_, id="B"), _R("XNor", x_, y_, id="B"))):
+        for mk in (lambda B: _R("Any", B, z_), lambda B: _R("Not", _R("Any", B, z_)), lambda B: _R("Imply", B, z_), lambda B: _R("All", _R("Any", B, z_), LEAF("w"))):
+            cases.append({"recipe": mk(B2), "prelude": [mk(B1)], "src": "handmade"})
+    # implications whose consequence is an integer item that can be negative
+    for cons in (LEAF("t", -1, 2), LEAF("t", -2, 1), LEAF("t", -1, 0)):
+        for cond in (LEAF("a"), _R("Any", LEAF("a"), LEAF("b")), LEAF("u", 0, 2)):
+            for r_ in (_R("Imply", cond, cons), _R("Not", _R("Imply", cond, cons)), _R("Any", _R("Imply", cond, cons, id="I"), LEAF("c")), _R("Imply", LEAF("c"), _R("Imply", cond, cons))):
+                cases.append({"recipe": r_, "src": "handmade"})
+    ctx.region("integer_consequence")
     ctx.pmap(drivers.drv_negate, _stamp(cases, "drv_negate"))
     if not q: repo_test_events(ctx, ['negate'])
     ctx.validate()
